@@ -126,19 +126,19 @@ PROPS['C10'] = Prop(
 
 _RM = '%s on %s: listeners L0, W (wrapped), L2; %d top-level triggers%s; W and L0 may re-dispatch their own event (nested trigger budget %d); helper object destroyed before the first trigger on one branch; %s'
 def _rm(name, tk, rk, tt, nb, tgt, **kw):
-    what = ['CounterRemover', 'ConditionalRemover (condition takes the arguments)', 'ConditionalRemover (condition takes no arguments)'][rk]
+    what = ['CounterRemover', 'ConditionalRemover (condition takes the arguments)', 'ConditionalRemover (condition takes no arguments)', 'ConditionalRemover (condition callable with and without the arguments)'][rk]
     sym = 'trigger count n is a fully symbolic 32-bit int' if rk == 0 else 'condition outcome is a symbolic bit per evaluation'
     oc = (4,) if rk == 0 else (1, 2, 3)
     if tk != 2: oc = oc + (6,)
     return Run(name, 'removers.cpp', {'TK': tk, 'RK': rk, 'TT': tt, 'NB': nb}, covers=7, optional_covers=oc, bounds=_RM % (what, tgt, tt, ' (alternately direct and enqueue+process)' if tk == 2 else '', nb, sym), **kw)
 PROPS['C16'] = Prop(
     quick=[_rm('counter_cl', 0, 0, 4, 1, 'CallbackList'), _rm('counter_disp', 1, 0, 4, 1, 'EventDispatcher'), _rm('counter_queue', 2, 0, 4, 1, 'EventQueue'),
-           _rm('cond_args_cl', 0, 1, 4, 1, 'CallbackList'), _rm('cond_noargs_disp', 1, 2, 4, 1, 'EventDispatcher'), _rm('cond_args_queue', 2, 1, 3, 1, 'EventQueue'),
+           _rm('cond_args_cl', 0, 1, 4, 1, 'CallbackList'), _rm('cond_noargs_disp', 1, 2, 4, 1, 'EventDispatcher'), _rm('cond_args_queue', 2, 1, 3, 1, 'EventQueue'), _rm('cond_both_disp', 1, 3, 3, 1, 'EventDispatcher'),
            _rm('counter_hdisp', 3, 0, 3, 1, 'HeterEventDispatcher'),
            BmcRun('counter_wrapper_cbmc', 'counter_kernel.cpp', 'counter_laws.c', unwind=7, bounds='E-bmc cross-check: the real CounterRemover wrapper operator() with a stub dispatcher, translated IR->C and decided by CBMC for EVERY 32-bit trigger count and 0..5 triggers; every nsw operation asserted (signed overflow); unwind 7 with unwinding assertions')],
     thorough=[_rm('counter_cl_t', 0, 0, 5, 2, 'CallbackList', budget_s=1700), _rm('counter_disp_t', 1, 0, 5, 2, 'EventDispatcher', budget_s=1700), _rm('counter_queue_t', 2, 0, 5, 2, 'EventQueue', budget_s=1700),
               _rm('cond_args_cl_t', 0, 1, 5, 2, 'CallbackList', budget_s=1700), _rm('cond_noargs_cl_t', 0, 2, 5, 2, 'CallbackList', budget_s=1700),
-              _rm('cond_noargs_disp_t', 1, 2, 5, 2, 'EventDispatcher', budget_s=1700), _rm('cond_args_queue_t', 2, 1, 5, 2, 'EventQueue', budget_s=1700),
+              _rm('cond_noargs_disp_t', 1, 2, 5, 2, 'EventDispatcher', budget_s=1700), _rm('cond_args_queue_t', 2, 1, 5, 2, 'EventQueue', budget_s=1700), _rm('cond_both_cl_t', 0, 3, 4, 2, 'CallbackList', budget_s=1700), _rm('cond_both_queue_t', 2, 3, 4, 2, 'EventQueue', budget_s=1700),
               _rm('counter_hdisp_t', 3, 0, 4, 2, 'HeterEventDispatcher', budget_s=1700), _rm('cond_args_hdisp_t', 3, 1, 4, 2, 'HeterEventDispatcher', budget_s=1700),
               BmcRun('counter_wrapper_cbmc', 'counter_kernel.cpp', 'counter_laws.c', unwind=7, bounds='E-bmc cross-check as in the quick tier')],
     outside='more than TT top-level triggers (TT+NB triggers separate n<=1, 2, ..., TT+NB, larger); several wrapped listeners at once; threads',
